@@ -81,6 +81,7 @@ def run_job(job):
                 if f.components[-1].encrypt_by_session_key is not True:
                     return False
             carrier = stubs.Carrier()
+            runner.track(vals)
             if framing == "bf3":
                 f.write_file(carrier, key)
                 g = bf.Bf3File.read_file(carrier, True, key)
@@ -97,8 +98,12 @@ def run_job(job):
                 g = r.bf3file
             raw = carrier.raw
             n = len(content)
-            stored = raw[len(raw) - len(pad(content)) :]
-            model = stubs.model_cbc_encrypt(key, None, pad(content))
+            zpad = content + bytes(-n % 16)  # the documented padding, independent of crypto.pad
+            stored = raw[len(raw) - len(zpad) :]
+            model = stubs.model_cbc_encrypt(key, None, zpad)
+            if len(raw) != 5 + 4 + 2 * (1 + 12 + 16 + 1 + 16) + 3 + sum(2 + len(v) for _, v in CONFIG_DESC) + 1 + 3 + len(zpad) and framing == "bf3" and how == "direct":
+                runner.record_witness(**vals)
+                return False
             gc = g.components[-1]
             ok = gc.blob[: gc.actual_len] == content and gc.actual_len == n and gc.encrypt_by_session_key is True and stored == model and len(g.components) == 2 and g.components[0].blob == f.components[0].blob
             if twin:
@@ -333,6 +338,15 @@ def replay(job):
             except Exception as e:
                 return dict(reproduced=True, signature="C06:recovery", detail="%s: %s (content=%s key=%s)" % (type(e).__name__, e, content.hex(), key.hex()))
             gc = g.components[-1]
+            if job["framing"] == "bf3":
+                from register_crypto_plugin.pyaes import AESModeOfOperationCBC
+
+                rawb = bytes.fromhex("".join(s.getvalue().split("\n")[1:]))
+                zp = content + bytes(-len(content) % 16)
+                m_ = AESModeOfOperationCBC(key, bytes(16))
+                want_ct = b"".join(m_.encrypt(zp[i : i + 16]) for i in range(0, len(zp), 16))
+                if not rawb.endswith(want_ct) or rawb[-len(want_ct) - 1 : -len(want_ct)] != b"\x00":
+                    return dict(reproduced=True, signature="C06:recovery", detail="stored payload is not CBC(key, 0, content zero-padded to 16): content %s, file tail %s" % (content.hex(), rawb[-48:].hex()))
             if not (gc.blob[: gc.actual_len] == content and gc.encrypt_by_session_key is True and gc.actual_len == len(content)):
                 return dict(reproduced=True, signature="C06:recovery", detail="content %s key %s read back blob=%s actual_len=%s enc=%s" % (content.hex(), key.hex(), gc.blob.hex(), gc.actual_len, gc.encrypt_by_session_key))
         return dict(reproduced=False, detail="no reproduction in %d candidates" % len(cands))
